@@ -114,7 +114,30 @@ def sensitivity(kind):
             if how == "negated":
                 return [-x for x in flat]
             return [flat[1], flat[0]] + list(flat[2:])
-        if kind == "pose":
+        if kind == "graph":
+            def graph(i2, tag, change=None):
+                vs = [mk_vertex(i2, [ida, idb][k], sym_pose("PoseSE2", "p%d" % k)) for k in range(2)]
+                es = [mk_odometry(i2, "PoseSE2", [ida, idb], "e0"), mk_odometry(i2, "PoseSE2", [ida, idb], "e1")]
+                if change is not None:
+                    change(vs, es)
+                return i2.construct("Graph", [es, vs])
+
+            def ch_est(k):
+                return lambda vs, es: ga(es[k], "estimate").data.__setitem__(0, Poly.var("other"))
+
+            def ch_info(k):
+                return lambda vs, es: ga(es[k], "information").data[0].__setitem__(1, Poly.var("other"))
+
+            def ch_pose(k):
+                return lambda vs, es: ga(vs[k], "pose").data.__setitem__(1, Poly.var("other"))
+
+            def ch_ids(k):
+                return lambda vs, es: sa(es[k], "vertex_ids", [idb, ida])
+            for label, ch in [("estimate of edge %d" % k, ch_est(k)) for k in (0, 1)] + [("information of edge %d" % k, ch_info(k)) for k in (0, 1)] + \
+                    [("pose of vertex %d" % k, ch_pose(k)) for k in (0, 1)] + [("vertex ids of edge %d" % k, ch_ids(k)) for k in (0, 1)]:
+                n += must_see(lambda i2, ch=ch: (graph(i2, "a"), graph(i2, "b", ch)), "Graph vs the same graph with another %s" % label)
+                n += must_see(lambda i2, ch=ch: (graph(i2, "b", ch), graph(i2, "a")), "a graph with another %s vs the original" % label)
+        elif kind == "pose":
             for c in POSES:
                 for how in ("negated", "swapped"):
                     def build(i2, c=c, how=how):
@@ -127,7 +150,7 @@ def sensitivity(kind):
                     a = sym_pose(c, "a", unit=False)
                     return mk_vertex(i2, ida, a), mk_vertex(i2, ida, Pose(c, isometric(list(a.data), "swapped")))
                 n += must_see(build, "Vertex[%s] vs a vertex whose pose has two components swapped (same norm)" % c)
-        else:
+        elif kind == "edge":
             for label, mk in (("EdgeOdometry[PoseSE2]", lambda i2: mk_odometry(i2, "PoseSE2", [ida, idb], "o")),
                               ("EdgeOdometry[PoseSE3]", lambda i2: mk_odometry(i2, "PoseSE3", [ida, idb], "o")),
                               ("EdgeLandmark[PoseSE2]", lambda i2: mk_landmark(i2, "PoseSE2", [ida, idb], "l", oid=Poly.var("id_o"))),
@@ -170,7 +193,7 @@ def sensitivity(kind):
                         b.data[i] = Poly.var("other")
                         return mk_vertex(i2, ida, a), mk_vertex(i2, ida, b)
                     n += must_see(build, "Vertex[%s] vs a copy whose pose component %d was replaced" % (c, i))
-        else:
+        elif kind == "edge":
             makers = [("EdgeOdometry[PoseSE2]", lambda i2: mk_odometry(i2, "PoseSE2", [ida, idb], "o")),
                       ("EdgeOdometry[PoseSE3]", lambda i2: mk_odometry(i2, "PoseSE3", [ida, idb], "o")),
                       ("EdgeLandmark[PoseSE2]", lambda i2: mk_landmark(i2, "PoseSE2", [ida, idb], "l", oid=Poly.var("id_o"))),
@@ -420,7 +443,8 @@ def run(run_, pkg, tier):
     bfn = pkg.method("BaseEdge", "equals")
     if run_.wants("C17/edge-fields"):
         tasks.append(("C17/edge-fields", "C17-Q4-field-coverage", edge_field_cases(), "%s:%d" % (bfn._gs_module, bfn.lineno)))
-    for kind, anchor in (("pose", bp), ("vertex", vfn), ("edge", bfn)):
+    gfn0 = pkg.method("Graph", "equals")
+    for kind, anchor in (("pose", bp), ("vertex", vfn), ("edge", bfn), ("graph", gfn0)):
         key = "C17/sensitivity/%s" % kind
         if run_.wants(key):
             tasks.append((key, "C17-Q4-every-component-compared", sensitivity(kind), "%s:%d" % (anchor._gs_module, anchor.lineno)))
@@ -434,4 +458,4 @@ def run(run_, pkg, tier):
     n_eq = sum(1 for q, f in pkg.all_functions() if f.name == "equals")
     run_.floor("equals methods", n_eq, 3)
     record(run_, tasks, run_tasks(pkg, tasks))
-    run_.floor("C17 obligations", len(tasks) if run_.only is None else 101, 101)
+    run_.floor("C17 obligations", len(tasks) if run_.only is None else 102, 102)
